@@ -1,6 +1,6 @@
 CONSTANTS
   Clients = {"c1", "c2", "c3"}
-  HostOf <- H3
+  HostOf <- H3d
   NBlocks = 1
   BlockBits = 1
   Handles = {"hA"}
